@@ -799,3 +799,91 @@ def bool_family(rng, thorough, per_policy=32):
     for i in range(0, len(shapes), per_policy):
         pols.append((bool_policy(shapes[i:i + per_policy], first=i), shapes[i:i + per_policy]))
     return pols
+
+
+# ------------------------------------------------------------------ match-exhaustiveness family (C24, C22)
+# Scrutinee types option[T] and result[T, E] over a small universe of component types with different
+# cardinalities; arm sets: a binding or 0 / k-1 / k literals (or a literal then the binding) on each side,
+# with and without a default arm, both orders of the sides.  (Struct literal patterns are not in the model.)
+
+MATCH_ENUMS = [('M2', ['A', 'B']), ('M3', ['A', 'B', 'C']), ('M4', ['A', 'B', 'C', 'D'])]
+MATCH_UNIVERSE = [T_BOOL, ('enum', 'M2'), ('enum', 'M3'), ('enum', 'M4'), T_INT]
+
+
+def comp_values(t):
+    """(literal, value) for the values of a component type (ints: the literals used in patterns and two others)"""
+    if t == T_BOOL:
+        return [(('LBool', b), ('B', b)) for b in (True, False)]
+    if t[0] == 'enum':
+        vs = dict(MATCH_ENUMS)[t[1]]
+        return [(('LEnum', t[1], v), ('E', t[1], i)) for i, v in enumerate(vs)]
+    return [(('LInt', n), ('I', n)) for n in (0, 1, 5, 9223372036854775807)]
+
+
+def comp_card(t):
+    return None if t == T_INT else len(comp_values(t))
+
+
+def side_options(t):
+    """coverage options of one side: ('bind',), ('lits', n), ('lit+bind',)"""
+    k = comp_card(t)
+    ns = [0, 1, 2] if k is None else sorted({0, k - 1, k})
+    return [('bind',)] + [('lits', n) for n in ns] + [('lit+bind',)]
+
+
+def side_arms(wrap_lit, wrap_bind, t, optn, var):
+    """the patterns of one side and whether they cover it"""
+    vals = comp_values(t)
+    k = comp_card(t)
+    if optn[0] == 'bind':
+        return [('PVals', [('PBind', wrap_bind, var)])], True
+    if optn[0] == 'lit+bind':
+        return [('PVals', [('PLit', (wrap_lit, vals[0][0]))]), ('PVals', [('PBind', wrap_bind, var)])], True
+    n = optn[1]
+    return [('PVals', [('PLit', (wrap_lit, l))]) for (l, _) in vals[:n]], (k is not None and n >= k)
+
+
+def match_shapes():
+    """every (scrutinee type, patterns, covered?) of the family"""
+    out = []
+    for t in MATCH_UNIVERSE:
+        for so in side_options(t):
+            some, cov_s = side_arms('LSome', 'W_Some', t, so, 'v')
+            for none in (True, False):
+                for default in (True, False):
+                    for order in (0, 1):
+                        n_arm = [('PVals', [('PLit', ('LNone',))])] if none else []
+                        pats = (some + n_arm) if order == 0 else (n_arm + some)
+                        if default:
+                            pats = pats + [('PDefault',)]
+                        out.append((('opt', t), pats, default or (cov_s and none)))
+    for t in MATCH_UNIVERSE:
+        for e in MATCH_UNIVERSE:
+            for so in side_options(t):
+                oks, cov_o = side_arms('LOk', 'W_Ok', t, so, 'v')
+                for eo in side_options(e):
+                    errs, cov_e = side_arms('LErr', 'W_Err', e, eo, 'w')
+                    for default in (True, False):
+                        for order in (0, 1):
+                            pats = (oks + errs) if order == 0 else (errs + oks)
+                            if default:
+                                pats = pats + [('PDefault',)]
+                            out.append((('res', t, e), pats, default or (cov_o and cov_e)))
+    return [s for s in out if s[1]]
+
+
+def match_policy(shape, as_expr):
+    st, pats, _ = shape
+    if as_expr:
+        body = [('SReturn', ('EMatch', ('EVar', 's'), [(p, ('EInt', i + 1)) for i, p in enumerate(pats)]))]
+    else:
+        body = [('SMatch', ('EVar', 's'), [(p, [('SReturn', ('EInt', i + 1))]) for i, p in enumerate(pats)]), ('SReturn', ('EInt', 99))]
+    f = {'name': 'main', 'params': [('s', st)], 'ret': T_INT, 'body': body}
+    return {'enums': MATCH_ENUMS, 'structs': [], 'effects': [], 'facts': [], 'globals': [], 'funs': [f], 'finfuns': [], 'cmds': [],
+            'actions': [], 'uses_ffi': False}
+
+
+def scrutinee_values(st):
+    if st[0] == 'opt':
+        return [('N',)] + [('O', v) for (_, v) in comp_values(st[1])]
+    return [('K', v) for (_, v) in comp_values(st[1])] + [('R', v) for (_, v) in comp_values(st[2])]
